@@ -6,7 +6,7 @@
     partition the scored pairs; unlinkables cum_prop = share of records at or below p).
  T  translators/c20_sql.py regenerates the five SQL snippets from /repo and compares their
     sqlglot-normalised text with the forms the model was written against (syntactic tie).
- X  real compute_tf_table, completeness_data, comparison-vector distribution (captured from
+ X  real profile_columns (its tables read through a wrapped DatabaseAPI), compute_tf_table, completeness_data, comparison-vector distribution (captured from
     comparison_viewer_dashboard), histogram_data (match_weights_histogram) and unlinkables_data
     (unlinkables_chart) on DuckDB and SQLite vs the model evaluated inside Coq; every case is
     also recounted directly in Python (oracle for the search / violation report).
@@ -55,7 +55,7 @@ def run(ctx: Ctx):
     ctx.cov["rule"] = ("X: seeded datasets of 1-3 tables whose columns are NULL-heavy / all NULL but one / single-valued / "
                        "single-valued with NULLs / all-distinct / mixed; 2 exact-match comparisons with optional term-frequency "
                        "adjustment, 0-2 blocking rules, all link types, target bins in {3,5,10,30,100}; each case yields up to "
-                       "9 Coq-evaluated comparisons (2 tf tables, tf join, completeness per column, cvd, histogram, unlinkables); "
+                       "14 Coq-evaluated comparisons (3 tf tables, tf join, completeness per column, cvd, histogram, unlinkables, profile_columns per column: value frequencies / percentiles / top n / bottom n); "
                        "non-trivial = has NULLs, >= 2 distinct gamma vectors and >= 2 listed unlinkable probabilities.")
     ctx.trusted += [
         "translators/c20_sql.py (sqlglot-normalised text of the five SQL snippets compared with the audited forms; syntactic)",
@@ -128,7 +128,7 @@ def run(ctx: Ctx):
             except Exception:
                 small, r2, d2 = case, res, [detail]
             ctx.violation(f"descriptive output is not the recount ({kind}): {d2[0][:300]}",
-                          {"case": small, "implementation": {k: r2.get(k) for k in ("tf", "completeness", "cvd", "hist", "unlinkables")},
+                          {"case": small, "implementation": {k: r2.get(k) for k in ("tf", "completeness", "cvd", "hist", "unlinkables", "profile")},
                            "specification": d2[:5]},
                           {"backend": small["backend"], "kind": kind})
     ctx.cov["skipped"] = skipped
